@@ -15,7 +15,7 @@
 (* copy with the highest sequence number; free entries skipped; every entry    *)
 (* attached under the entry its parent reference (table index, position)       *)
 (* resolves to in the ACTIVE copy of the parent's table.                        *)
-EXTENDS Integers, Sequences, FiniteSets, TLC
+EXTENDS Integers, Sequences, FiniteSets, TLC, Json, IOUtils
 
 CONSTANTS K, T
 VARIABLES file, decoded
@@ -30,13 +30,14 @@ Files == {[parent |-> p, inner |-> i, tbl |-> t, stale |-> s, free |-> f, hdr |-
 WF(x) == \A n \in Nodes : x.parent[n] # 0 => x.parent[n] \in x.inner
 
 \* the stored tree as a set of <<node, parent, kind>> (values are attached by the encoder, keyed by node id)
-Stored(x) == {<<n, x.parent[n], IF n \in x.inner THEN "node" ELSE "leaf">> : n \in Nodes}
+NodesOf(x) == DOMAIN x.parent
+Stored(x) == {<<n, x.parent[n], IF n \in x.inner THEN "node" ELSE "leaf">> : n \in NodesOf(x)}
 
 \* ---- abstract serialisation: table copies = [idx, seq, entries]; entry = [node, ghost, free, pref] ----
 \* position of node n inside its table: rank among the nodes of that table (free entries interleave but do not count)
-UsedIn(x, t) == {n \in Nodes : x.tbl[n] = t}
-Copies(x) == {[idx |-> t, seq |-> 2, nodes |-> UsedIn(x, t), ghost |-> FALSE] : t \in {x.tbl[n] : n \in Nodes}}
-             \cup {[idx |-> t, seq |-> 1, nodes |-> UsedIn(x, t), ghost |-> TRUE] : t \in x.stale \cap {x.tbl[n] : n \in Nodes}}
+UsedIn(x, t) == {n \in NodesOf(x) : x.tbl[n] = t}
+Copies(x) == {[idx |-> t, seq |-> 2, nodes |-> UsedIn(x, t), ghost |-> FALSE] : t \in {x.tbl[n] : n \in NodesOf(x)}}
+             \cup {[idx |-> t, seq |-> 1, nodes |-> UsedIn(x, t), ghost |-> TRUE] : t \in x.stale \cap {x.tbl[n] : n \in NodesOf(x)}}
 
 \* ---- the decoder ----
 Active(x, t) == CHOOSE c \in Copies(x) : c.idx = t /\ \A d \in Copies(x) : d.idx = t => d.seq <= c.seq
@@ -47,6 +48,19 @@ GhostVisible(x) == \E t \in {c.idx : c \in Copies(x)} : Active(x, t).ghost
 
 Init == file \in {x \in Files : WF(x)} /\ decoded = Decode(file)
 NoNext == FALSE /\ UNCHANGED vars
+
+\* ---- trace validation: structures decoded by the real reader from random larger files ----
+Runs == ndJsonDeserialize(IOEnv.TRACE_FILE)
+SeqSet(q) == {q[i] : i \in 1..Len(q)}
+FileOf(j) == [parent |-> j.parent, inner |-> SeqSet(j.inner), tbl |-> j.tbl, stale |-> SeqSet(j.stale), free |-> SeqSet(j.free),
+              hdr |-> j.hdr, newerFirst |-> j.newerFirst]
+Got(j) == {<<j.decoded[i][1], j.decoded[i][2], IF j.decoded[i][3] = 1 THEN "node" ELSE "leaf">> : i \in 1..Len(j.decoded)}
+TInit == file = 1 /\ decoded = 0
+TStep == /\ file \in 1..Len(Runs)
+         /\ IF Got(Runs[file]) = Decode(FileOf(Runs[file])) /\ ~Runs[file].ghost_seen
+            THEN PrintT(<<"ACCEPT", Runs[file].tid>>) ELSE PrintT(<<"REJECT", Runs[file].tid, 1, "decoded-structure">>)
+         /\ file' = file + 1 /\ UNCHANGED decoded
+TraceSpec == TInit /\ [][TStep]_vars
 
 DecodedEqualsStored == decoded = Stored(file)
 HighestSeqWins      == ~GhostVisible(file)
